@@ -55,6 +55,27 @@ CHECKS = {
              'the (recording) host mapping for must be listed or be an implicit sugar name. Complete within the bounds.',
         note='trusted: reference lexer; the recording mapping sees exactly what ScopedDict asks a scope for',
         design='4/C18'),
+    'C14': dict(
+        engine='E3',
+        technique='explicit-state BFS over container contents to a fixpoint of a finite domain; every operation executed through '
+                  'real eval and on a reference list/dict model',
+        text='All reachable contents of a list (length <= 4/5) and of a dict (<= 3/4 entries) over values {0,1,2} are explored; '
+             'in every state every operation of a ~190 / ~250 operation alphabet (integer, decimal, negative, out-of-range, bool, '
+             'host-int indices; string/number/bool/None/host keys; dict literals) is run on the real code (twice: language numbers, '
+             'host ints) and on the model; result and resulting contents must agree. Fixpoint reached = complete for the domain.',
+        note='trusted: mc/model/containers.py; a container has no hidden state beyond its ordered contents',
+        design='4/C14'),
+    'C12': dict(
+        engine='E3',
+        technique='explicit-state BFS over statement histories (assignments x mutations), replayed on fresh host objects, states '
+                  'deduplicated on contents + alias partition; identity-disjointness invariant checked at every assignment node',
+        text='Every history up to depth 3/4 over every assignment form x right-hand-side kind (host list/dict/tuple, sub-objects, '
+             'literals containing host objects, builtin results, lambdas, variables) and mutations through reachable paths is executed '
+             'on the real code in two modes (one eval per statement / one eval for all); at each assignment node an external tracer '
+             'checks that nothing newly reachable from the assigned slot is shared with anything that existed before, after each '
+             'eval that distinct names share no mutable object and that host objects only change by direct mutation.',
+        note='trusted: identity-disjointness of lists/dicts (through tuples) is equivalent to isolation of mutations for plain data',
+        design='4/C12'),
 }
 
 NOT_YET = {}
